@@ -348,6 +348,11 @@ func (vc *VC) dispatchCall2(st *State, call *ast.CallExpr, recv *Term, args []Te
 			if o := info.ObjectOf(id); o != nil {
 				for i := len(vc.frames) - 1; i >= 0; i-- {
 					if fl, ok := vc.frames[i].closures[o]; ok {
+						if i == 0 {
+							if cc := vc.closureContractFor(id.Name); cc != nil && (vc.fn.Lit == nil || vc.fn.Lit != fl) {
+								return vc.closureContractCall(st, call, cc, fl, args)
+							}
+						}
 						if vc.inlineDepth(fl) < 2 {
 							return vc.inlineBody(st, fl.Type, fl.Body, nil, Term{}, args, vc.frames[i].info, vc.frames[i].pkg, "closure "+id.Name, fl)
 						}
